@@ -54,7 +54,7 @@ theorem lexCmp_eq_zero {a b : List Nat} : lexCmp a b = 0 ↔ a = b := by
       · by_cases h2 : y < x
         · simp [h1, h2]; omega
         · have : x = y := by omega
-          simp [h1, h2, ih, this]
+          simp [ih, this]
 
 theorem lexCmp_le_trans {a b c : List Nat} (h1 : lexCmp a b ≤ 0) (h2 : lexCmp b c ≤ 0) : lexCmp a c ≤ 0 := by
   induction a generalizing b c with
@@ -147,11 +147,10 @@ theorem lexCmp_units_append (r s : Nat) (hr : IsScalar r) (hs : IsScalar s) (U V
           · have : 0xDC00 + (s - 0x10000) % 1024 < 0xDC00 + (r - 0x10000) % 1024 := by omega
             simp [c, this]
 
-theorem lexCmp_unitsOfRune_ne_zero (r s : Nat) (hr : IsScalar r) (hs : IsScalar s) (e : r ≠ s) :
+theorem lexCmp_unitsOfRune_ne_zero (r s : Nat) (_hr : IsScalar r) (_hs : IsScalar s) (e : r ≠ s) :
     lexCmp (unitsOfRune r) (unitsOfRune s) ≠ 0 := by
   intro h
   have h' := lexCmp_eq_zero.mp h
-  unfold IsScalar at hr hs
   unfold unitsOfRune at h'
   by_cases h1 : r < 0x10000 <;> by_cases h2 : s < 0x10000 <;> simp [h1, h2] at h' <;> omega
 
